@@ -185,6 +185,8 @@ class Sim:
         self.lazy_ready_seen = 0
         self.lazy_justified = 0
         self.cancel_started = None
+        self.resub_after_cancel = 0
+        self.after_resub_try = 0
         self.cancel_cmd_step = None
         self.cancel_ids_at_promotion = None
         self.cancel_pid = None
@@ -1648,6 +1650,31 @@ class Sim:
                 if self.recoveries >= (2 if not self.ff else 1):
                     return False
         if last["complete"] and o is not None:
+            n_re = self.scen.get("resubmit_after_cancel", 0)
+            if n_re and last["canceled"] and self.resub_after_cancel < n_re and not self.active_batches():
+                # the user changes their mind: the canceled (and completed) submission is resubmitted, then looked at again.
+                # Cancel is final: whatever the command does, no batch may be handed to the HPC.  `--no-failed` selects only
+                # the jobs that never ran, so no recorded result is pruned by the user's own request.
+                self.resub_after_cancel += 1
+                rows = self._rows_on_disk()
+                if self.rows_at_cancel and not self.rows_unknown:
+                    for name in self.rows_at_cancel:
+                        if name not in rows:
+                            self.viol("C14", "row-lost-after-cancel", f"result of {name} recorded before cancel is gone")
+                # from here on the user's own request prunes the results of the jobs that never ran *and of their dependents*
+                from . import model as _model
+
+                closure = _model.dependents_closure(self.scen["jobs"], {n for n in self.jobs if n not in rows})
+                self.rows_at_cancel = {n: v for n, v in (self.rows_at_cancel or {}).items() if n not in closure} if isinstance(self.rows_at_cancel, dict) else [n for n in (self.rows_at_cancel or []) if n not in closure]
+                self.epoch += 1
+                self.epoch_transition = True
+                self.spawn_top(f"userresub{self.resub_after_cancel}", ["jade", "resubmit-jobs", self.outname, "--no-failed"], self.rng.choice(["login", "login2"]))
+                self.after_resub_try = 2
+                return True
+            if self.after_resub_try and last["canceled"]:
+                self.after_resub_try -= 1
+                self.spawn_top(f"userafter{self.resub_after_cancel}_{self.after_resub_try}", ["jade", "try-submit-jobs", self.outname] if self.after_resub_try else ["jade", "show-status", "-o", self.outname, "-n"], "login")
+                return True
             return False
         if self.active_batches():
             raise Inconclusive("no runnable actor but batches are active")
@@ -2090,6 +2117,7 @@ class Sim:
             "sig_items": self.sig_items if self.scen.get("sig_list") else None,
             "epochs": self.epoch + 1,
             "killed_nodes": sum(1 for b in self.batches.values() if b.get("killed")),
+            "resub_after_cancel": self.resub_after_cancel,
             "scancels": len(self.scancelled),
             "canceled": self.canceled_visible_step is not None,
             "cancel_unsubmitted": getattr(self, "cancel_unsubmitted", 0),
